@@ -4,17 +4,18 @@
    e504d5d, which SETS the cancelled leading coefficient to zero) in the STANDARD MODEL of floating-point arithmetic
    (Base/RoundModel.v: the same Gallina [polydiv] at the arithmetic ARm whose operations are the exact ones times
    (1+d), |d| <= u).  For every coefficient index k, with the EXACT real convolution (q*v)_k = Sum_{i<=k} q_i v_{k-i}:
-        | a_k - (q*v)_k - r_k |  <=  gam (2 M) ( |a_k| + Sum_{i<=k} |q_i| |v_{k-i}| )        (polydiv_rounded_identity)
-        | a_k - (q*v)_k - r_k |  <=  gam (4 M) ( Sum_{i<=k} |q_i| |v_{k-i}| + |r_k| )        (polydiv_rounded_residual)
+   (a) | a_k - (q*v)_k - r_k |  <=  gam (2 M) ( |a_k| + Sum_{i<=k} |q_i| |v_{k-i}| )        (polydiv_rounded_identity)
+   (b) | a_k - (q*v)_k - r_k |  <=  gam (4 M) ( Sum_{i<=k} |q_i| |v_{k-i}| + |r_k| )        (polydiv_rounded_residual)
    M = min(N, len v),  N = len a + 1 - len v  (N bounds the number of passes of the loop, and one coefficient is touched
    by at most len v of them; gam n = n u / (1 - n u)).  The residual of each cancelled leading coefficient,
    r_top - fl(r_top / v_top) v_top, which the repaired loop discards, is part of the bounded error.
    Hypotheses beside the (1+d) laws: the leading coefficient of v is not zero; the dividend's coefficients belong to
    the set F of floating-point numbers; results of -, *, / are in F and 0 + x = x + 0 = x - 0 = x for x in F (true of
    every correctly rounded arithmetic; discharged for 53-bit round-to-nearest-even in Proofs/Round2PolyB.v).
-   (c) polydiv_rounded_identity_float / polydiv_rounded_residual_float: both bounds for the PRIMITIVE-FLOAT instance itself ([polydiv] at AF, IEEE
-   binary64, u = 2^-53), through Flocq: whenever the answer (q, r) is finite and no quotient r_top / v_top and no
-   product c * v_j of the run underflows ([pd_nounder], a condition on computable values of the run).
+   (c) polydiv_rounded_identity_float / polydiv_rounded_residual_float: both bounds for the PRIMITIVE-FLOAT instance
+   itself ([polydiv] at AF, IEEE binary64, u = 2^-53), through Flocq: whenever the answer (q, r) is finite and no
+   quotient r_top / v_top and no product c * v_j of the run underflows ([pd_nounder], a condition on computable values
+   of the run; intermediate finiteness is derived from the finite answer).
    Unproved remainder: (a), (b) assume the standard model; (c) says nothing when the answer is not finite or a
    quotient / product falls into the subnormal range (the absolute error of gradual underflow is not analysed).
    ====================================================================================================== *)
